@@ -3,8 +3,10 @@ package main
 import (
 	"fmt"
 	"go/ast"
+	"go/constant"
 	"go/token"
 	"go/types"
+	"math/big"
 	"strings"
 )
 
@@ -550,4 +552,220 @@ func init() {
 			}
 			return obs
 		}})
+}
+
+// JSON.canonical-exception-total — C13: under :exact-integers an integer
+// literal too large for a lisp int is refused UNLESS it is already the
+// canonical rendering of the float it parses to (the form dump itself writes
+// for floats between 2^63 and 1e21).  The structural half: no path reaches the
+// refusal in loadNumber without having put the text through that comparison.
+// A shortcut in front of it (a length test, a leading-character test) makes
+// dump's own output unloadable for whichever values the shortcut misjudges.
+func init() {
+	register(&Rule{ID: "JSON.canonical-exception-total", Floor: 1,
+		Doc: "in loadNumber every path to a refusal (a return that is not lisp.Int / lisp.Float / loadFloat) leaves through the failed canonical-float test — the false side of `string(appendJSONFloat(nil, f)) == text`, or ParseFloat's own error — so the exception for dump's plain-digit floats is applied to every oversize integer literal; the only shortcut accepted in front of it is `len(text) > K` with K at least the longest plain-digit text appendJSONFloat can write (sign + the digit count of its exponent cutoff)",
+		Run: func(c *Ctx) []Obligation {
+			const rid = "JSON.canonical-exception-total"
+			fn, fd, pkg := c.LookupFunc(jsonPkg + ".loadNumber")
+			app := c.LookupPkgFunc(jsonPkg + ".appendJSONFloat")
+			_, appDecl, appPkg := c.LookupFunc(jsonPkg + ".appendJSONFloat")
+			if fn == nil || app == nil || appDecl == nil || fd.Type.Params == nil || len(fd.Type.Params.List) == 0 {
+				return []Obligation{anchorMissing(rid, "libjson.loadNumber / appendJSONFloat")}
+			}
+			u := FuncUnit{fn, fd, pkg}
+			info := pkg.TypesInfo
+			textObj := info.Defs[fd.Type.Params.List[0].Names[0]]
+			// longest plain-digit text: cutoff `abs >= C` in appendJSONFloat
+			maxLen := -1
+			ast.Inspect(appDecl.Body, func(n ast.Node) bool {
+				be, ok := n.(*ast.BinaryExpr)
+				if !ok || be.Op != token.GEQ {
+					return true
+				}
+				tv, ok := appPkg.TypesInfo.Types[be.Y]
+				if !ok || tv.Value == nil {
+					return true
+				}
+				f, _ := constantFloat(tv.Value)
+				if f == nil || f.Sign() <= 0 {
+					return true
+				}
+				iv, acc := f.Int(nil)
+				if acc == 0 { // integral cutoff: the largest plain value is cutoff-1
+					iv.Sub(iv, bigOne)
+				}
+				if l := len(iv.String()) + 1; l > maxLen {
+					maxLen = l
+				}
+				return true
+			})
+			// error object of strconv.ParseFloat(text, ..)
+			var ferr types.Object
+			ast.Inspect(fd.Body, func(n ast.Node) bool {
+				as, ok := n.(*ast.AssignStmt)
+				if !ok || len(as.Rhs) != 1 || len(as.Lhs) != 2 {
+					return true
+				}
+				ce, ok := ast.Unparen(as.Rhs[0]).(*ast.CallExpr)
+				if ok && stdFuncCalled(info, ce, "strconv", "ParseFloat") && len(ce.Args) > 0 && identObj(info, ce.Args[0]) == textObj {
+					ferr = identObj(info, as.Lhs[1])
+				}
+				return true
+			})
+			isCanonCmp := func(e ast.Expr) bool {
+				be, ok := ast.Unparen(e).(*ast.BinaryExpr)
+				if !ok || be.Op != token.EQL && be.Op != token.NEQ {
+					return false
+				}
+				side := func(a, b ast.Expr) bool {
+					if identObj(info, b) != textObj {
+						return false
+					}
+					found := false
+					for _, ce := range callsIn(a, false) {
+						if originOf(Callee(info, ce)) == app {
+							found = true
+						}
+					}
+					return found
+				}
+				return side(be.X, be.Y) || side(be.Y, be.X)
+			}
+			isLenText := func(e ast.Expr) bool {
+				ce, ok := ast.Unparen(e).(*ast.CallExpr)
+				if !ok || len(ce.Args) != 1 {
+					return false
+				}
+				id, ok := ast.Unparen(ce.Fun).(*ast.Ident)
+				return ok && id.Name == "len" && identObj(info, ce.Args[0]) == textObj
+			}
+			cls := func(e ast.Expr) (string, bool) {
+				e = ast.Unparen(e)
+				if isCanonCmp(e) {
+					return "canon", e.(*ast.BinaryExpr).Op == token.NEQ
+				}
+				be, ok := e.(*ast.BinaryExpr)
+				if !ok {
+					return "", false
+				}
+				if ferr != nil {
+					if isT, nonNil := isNilTest(info, e, ferr); isT {
+						return "ferr", !nonNil // atom "ferr" = ferr != nil
+					}
+				}
+				// len(text) OP K
+				var k int
+				op := be.Op
+				switch {
+				case isLenText(be.X):
+					v, ok := intConst(info, be.Y)
+					if !ok {
+						return "", false
+					}
+					k = v
+				case isLenText(be.Y):
+					v, ok := intConst(info, be.X)
+					if !ok {
+						return "", false
+					}
+					k = v
+					switch op {
+					case token.LSS:
+						op = token.GTR
+					case token.LEQ:
+						op = token.GEQ
+					case token.GTR:
+						op = token.LSS
+					case token.GEQ:
+						op = token.LEQ
+					}
+				default:
+					return "", false
+				}
+				if maxLen < 0 {
+					return "", false
+				}
+				// atom "long" = len(text) > maxLen is implied
+				switch op {
+				case token.GTR: // len > k
+					if k >= maxLen {
+						return "long", false
+					}
+				case token.GEQ: // len >= k
+					if k-1 >= maxLen {
+						return "long", false
+					}
+				case token.LEQ: // !(len <= k) = len > k
+					if k >= maxLen {
+						return "long", true
+					}
+				case token.LSS:
+					if k-1 >= maxLen {
+						return "long", true
+					}
+				}
+				return "", false
+			}
+			fc := c.cfgOf(u, nil)
+			cut := fc.edgesEntailing(cls, func(v map[string]bool) bool {
+				return v["$has:canon"] && !v["canon"] || v["$has:ferr"] && v["ferr"] || v["$has:long"] && v["long"]
+			})
+			lispInt := c.LookupPkgFunc("lisp.Int")
+			lispFloat := c.LookupPkgFunc("lisp.Float")
+			loadFloat := c.LookupPkgFunc(jsonPkg + ".loadFloat")
+			var obs []Obligation
+			ord := &ordinal{}
+			sawCanon := false
+			ast.Inspect(fd.Body, func(n ast.Node) bool {
+				if e, ok := n.(ast.Expr); ok && isCanonCmp(e) {
+					sawCanon = true
+				}
+				return true
+			})
+			if !sawCanon {
+				return []Obligation{mkOb(c, rid, u, "canonical-float test", fd, Violated, "loadNumber no longer compares the literal with appendJSONFloat's rendering of the float it parses to: either every oversize integer is refused (dump's own 1e19 cannot be loaded) or every one is silently rounded", true)}
+			}
+			for _, b := range fc.G.Blocks {
+				if !fc.Live(b) {
+					continue
+				}
+				for _, n := range b.Nodes {
+					rs, ok := n.(*ast.ReturnStmt)
+					if !ok || len(rs.Results) != 1 {
+						continue
+					}
+					if ce, ok := ast.Unparen(rs.Results[0]).(*ast.CallExpr); ok {
+						if f := originOf(Callee(info, ce)); f != nil && (f == lispInt || f == lispFloat || f == loadFloat) {
+							continue
+						}
+					}
+					construct := ord.next("refusal return")
+					if fc.reachableAvoiding(b, cut) {
+						obs = append(obs, mkOb(c, rid, u, construct, rs, Violated, "a path reaches this refusal without the literal having failed the canonical-float comparison: some integer literal that dump writes for a float (plain digits up to 1e21, with or without a sign) is refused with json:integer-range-error, so the package cannot read its own output", true))
+					} else {
+						obs = append(obs, mkOb(c, rid, u, construct, rs, Proved, fmt.Sprintf("reached only over the failed canonical test, a ParseFloat error, or len(text) > %d", maxLen), true))
+					}
+				}
+			}
+			return obs
+		}})
+}
+
+var bigOne = big.NewInt(1)
+
+func constantFloat(v constant.Value) (*big.Float, bool) {
+	v = constant.ToFloat(v)
+	if v.Kind() != constant.Float {
+		return nil, false
+	}
+	switch x := constant.Val(v).(type) {
+	case *big.Float:
+		return new(big.Float).Copy(x), true
+	case *big.Rat:
+		return new(big.Float).SetRat(x), true
+	case float64:
+		return big.NewFloat(x), true
+	}
+	f, _ := constant.Float64Val(v)
+	return big.NewFloat(f), true
 }
